@@ -40,9 +40,10 @@ lines = [f'import {py2lean.unit_module(cfg, u)}' for u in py2lean.units(cfg)] + 
   'def sLS (r : Except PyErr (List String)) : String := match r with | .ok b => showS b | .error e => s!"\\"{e.name}\\""',
   'def sLLB (r : Except PyErr (List (List Bool))) : String := match r with | .ok b => toString (b.map fun r => r.map fun x => if x then 1 else 0) | .error e => s!"\\"{e.name}\\""',
   'def sOP (r : Except PyErr (Option (Int × Int))) : String := match r with | .ok none => "null" | .ok (some (a, b)) => s!"[{a}, {b}]" | .error e => s!"\\"{e.name}\\""',
+  'def sON (r : Except PyErr (Option Nat)) : String := match r with | .ok none => "null" | .ok (some a) => toString a | .error e => s!"\\"{e.name}\\""',
   'def sLI (r : Except PyErr (List Int)) : String := match r with | .ok b => toString b | .error e => s!"\\"{e.name}\\""',
   'def sT (r : Except PyErr Fca.Table) : String := match r with | .ok b => showT b | .error e => s!"\\"{e.name}\\""']
-SHOW = {'Bool': 'sB', 'Nat': 'sN', 'List Bool': 'sLB', 'List Nat': 'sLN', 'List String': 'sLS', 'List (List Bool)': 'sLLB', 'Table': 'sT', 'Option (Num × Num)': 'sOP', 'Set Num': 'sLI', 'FSet Nat': 'sLN'}
+SHOW = {'Bool': 'sB', 'Nat': 'sN', 'List Bool': 'sLB', 'List Nat': 'sLN', 'List String': 'sLS', 'List (List Bool)': 'sLLB', 'Table': 'sT', 'Option (Num × Num)': 'sOP', 'Set Num': 'sLI', 'FSet Nat': 'sLN', 'Option Nat': 'sON'}
 def sel(n, allow_oob):
     r = rng.random()
     if r < 0.3: return None
